@@ -109,6 +109,7 @@ func (c17) Plan(tier string) []fw.Unit {
 	us = append(us, fw.Unit{Check: "C17", Kind: "expr-args", Tier: tier, Spec: fw.Spec(enumSpec{})})
 	us = append(us, fw.Unit{Check: "C17", Kind: "aggregates", Tier: tier, Spec: fw.Spec(enumSpec{})})
 	us = append(us, fw.Unit{Check: "C17", Kind: "same-predicate", Tier: tier, Spec: fw.Spec(enumSpec{})})
+	us = append(us, fw.Unit{Check: "C17", Kind: "text-aggregates", Tier: tier, Spec: fw.Spec(enumSpec{})})
 	// strategy block without a timeout, a window output buffer of one result, a sink taking 20 ms per batch, rows fed
 	// back to back: the window must wait for its consumer (predicates count(*) >= 1 and count(*) >= 2)
 	us = append(us, fw.Unit{Check: "C17", Kind: "block", Tier: tier, Spec: fw.Spec(enumSpec{Cfg: 0})}, fw.Unit{Check: "C17", Kind: "block", Tier: tier, Spec: fw.Spec(enumSpec{Cfg: 1})})
@@ -528,6 +529,13 @@ func (c17) Run(u fw.Unit) fw.Result {
 	}
 	if u.Kind == "same-predicate" {
 		return c17SamePredicate()
+	}
+	if u.Kind == "text-aggregates" {
+		maxL := 4
+		if u.Tier == "thorough" {
+			maxL = 5
+		}
+		return textAggUnit("C17", "det-global-text-aggregates", "SELECT k, %s FROM stream GROUP BY k, GLOBAL WINDOW TRIGGER WHEN count(*) >= %d", maxL)
 	}
 	sp := parseEnum(u)
 	block := u.Kind == "block"
